@@ -3,8 +3,8 @@
 cd /verif
 for d in seeded/*/; do
   id=$(basename $d)
-  out=$(tools/try_patch.sh $d/patch.diff 2>&1)
-  n=$(echo "$out" | grep -c "^VIOLATION")
+  out=$(tools/try_patch.sh /verif/${d}patch.diff 2>&1)
+  n=$(echo "$out" | grep -c "^VIOLATION"); a=$(echo "$out" | grep -c "does not apply")
   e=$(echo "$out" | grep -c "ANALYSIS-ERROR")
-  echo "$id violations=$n analysis_errors=$e $(echo "$out" | grep -m1 '  rule' | cut -c1-140)"
+  echo "$id violations=$n analysis_errors=$e notapplied=$a $(echo "$out" | grep -m1 '  rule' | cut -c1-140)"
 done
